@@ -391,6 +391,19 @@ func (mem *CListMempool) resCbFirstTime(
 				return
 			}
 
+			// The cache may have forgotten a tx that is still in the mempool (cache
+			// smaller than the mempool, or disabled): never add a second copy, only
+			// record the sender.
+			if e, ok := mem.txsMap.Load(types.Tx(tx).Key()); ok {
+				memTx := e.(*clist.CElement).Value.(*mempoolTx)
+				memTx.senders.LoadOrStore(peerID, true)
+				mem.logger.Debug(
+					"transaction already in the mempool, not adding it again",
+					"tx", types.Tx(tx).Hash(),
+				)
+				return
+			}
+
 			memTx := &mempoolTx{
 				height:    mem.height,
 				gasWanted: r.CheckTx.GasWanted,
